@@ -26,6 +26,8 @@ def main(argv):
         t = time.time()
         r = run_unit(n)
         print(f"== {n}: paths={r['paths']} obligations={len(r['obligations'])} wall={time.time()-t:.2f}s")
+        for e in sorted(set(r.get("conc_errors", [])))[:5]:
+            print("   CONC-ERROR", e)
         for e in r["errors"]:
             print("   ERROR", e[0], e[1])
             rc = 3
